@@ -134,6 +134,15 @@ def check(case, ctx):
                 raise Fail("Pyramid.volume() wrong", {"got": vm, "expected": ref_v, "variant": name}, facts)
             if not near(vf, ref_v):
                 raise Fail("volume(Pyramid) wrong", {"got": vf, "expected": ref_v, "variant": name}, facts)
+        # the same Pyramid object after its apex was moved in place: every measure is that of the new pyramid
+        name, o = variants[0]
+        shift = X.mul(F(1, 2), X.sub(apex, pts[0])) if X.dot(n, X.sub(apex, pts[0])) != 0 else n
+        step("apex.move", lambda: o.point.move(B.vec(shift)))
+        apex2 = X.add(apex, shift)
+        ref_h2 = abs(float(X.dot(n, X.sub(apex2, pts[0])))) / math.sqrt(float(X.dot(n, n)))
+        ref_v2 = X.polygon_area(pts) * ref_h2 / 3
+        if not near(step("height", o.height), ref_h2) or not near(step("volume", o.volume), ref_v2) or not near(step("volume()", G.volume, o), ref_v2):
+            raise Fail("Pyramid measures wrong after its apex was moved in place", {"expected_volume": ref_v2, "method": o.volume(), "function": G.volume(o)}, facts)
         return
     raise ValueError(k)
 
